@@ -25,7 +25,8 @@ PROP = 'C16'
 RULE = ('cells = (transform in {DWT1D/2D fwd+inv, SWT, DTCWT fwd+inv, ScatLayer, ScatLayerj2}, configuration, '
         'N, C, input class in {randn, dynrange, const, outlier, ramp(offset)}); per cell four module instances '
         '(built in f32 / f64, converted with .float() / .double()), f32-vs-f64 differential, converted-vs-native, '
-        'five strided-view classes vs contiguous copies, None levels for the DWT inverses; distinct by (cell, check)')
+        'five strided-view classes vs contiguous copies, None levels for the DWT inverses; distinct by (cell, check)'
+        '; every module called with the other precision (refusal allowed, a returned tensor must have the input dtype); J=0 DWT forward returns the input unchanged; absent DTCWT entries (None levels, missing lowpass) in all four module precisions')
 ASSUMPTIONS = ['gain = largest absolute row sum of the operator extracted from an impulse execution in the same run '
                '(linear transforms); composed stage gains for the scattering layers', 'torch .double()/.float() semantics for buffers/parameters']
 TIMEOUT = {'quick': 900, 'thorough': 3300}
